@@ -101,12 +101,26 @@ def firstDecisive (others : Poly) : List P → Option Side
     | .onEdge => firstDecisive others t
     | s => some s
 
-/-- `area(r, i, p, bounds)` where `others` is `p` without ring `i` and `single = (len(p) == 1)` -/
+/-- `Point{X: r[ii].X/2 + r[jj].X/2, Y: r[ii].Y/2 + r[jj].Y/2}` -/
+def mid (a b : P) : P := ⟨a.x / 2 + b.x / 2, a.y / 2 + b.y / 2⟩
+
+/-- the middles of the edges `r[ii] r[(ii+1) % len(r)]`, in order (second loop of `area`, added by the
+fix "area decides a ring whose vertices all lie on other rings by the middle of an edge") -/
+def midsAux (first : P) : List P → List P
+  | [] => []
+  | [x] => [mid x first]
+  | x :: y :: t => mid x y :: midsAux first (y :: t)
+def edgeMids : List P → List P
+  | [] => []
+  | a :: t => midsAux a (a :: t)
+
+/-- `area(r, i, p, bounds)` where `others` is `p` without ring `i` and `single = (len(p) == 1)`:
+the vertices are asked first, then the edge middles; the first point that is not `OnEdge` decides -/
 def ringArea (single : Bool) (r : Ring) (others : Poly) : Rat :=
   if r.length < 2 then 0 else
   let A := absR (goCyc shoeF r / 2)
   if single then A else
-  match firstDecisive others r with
+  match firstDecisive others (r ++ edgeMids r) with
   | some .outside => A
   | some _ => -A
   | none =>
